@@ -5,7 +5,7 @@ import numpy as np
 from hypothesis import strategies as st
 
 from vlib import gen
-from vlib.harness import drive, quiet, Violation
+from vlib.harness import drive, quiet, Violation, collecting
 from vlib.ref import ref_units as RU
 
 PROPERTY = "C10"
@@ -30,7 +30,7 @@ def settings_case(draw):
                 kcals=draw(st.sampled_from([2100.0]) | st.floats(500, 5000)),
                 fat=draw(st.sampled_from([47.0, 61.7]) | st.floats(10, 200)),
                 protein=draw(st.sampled_from([51.0, 59.5]) | st.floats(10, 200)),
-                vals=draw(st.lists(st.floats(1e-3, 1e6) | st.sampled_from([0.0, 1.0]), min_size=9, max_size=9)),
+                vals=draw(st.lists(st.floats(1e-3, 1e6) | st.floats(-1e6, -1e-3) | st.sampled_from([0.0, 1.0, -1.0]), min_size=9, max_size=9)),
                 n=draw(st.sampled_from([1, 2, 3])))
 
 
@@ -192,10 +192,8 @@ def shard(ctx):
             one_settings(ctx, c2, pairs_stride=stride * 40, offset=ctx.shard, history=hist)
             hist = hist + [c2]
             ctx.event("settings_changed_partially")
-    try:
+    with collecting(ctx):
         run()
-    except Violation as v:
-        ctx.record_violation(ctx._last_violation or v)
 
 
 def replay(case, ctx):
